@@ -117,7 +117,7 @@ def record(be, stem, c, header_dict=None, load_template=False, **kw):
 
 
 def raw_files(stem):
-    return sorted(glob.glob(f'{stem}.????.raw'))
+    return sorted(glob.glob(f'{glob.escape(stem)}.????.raw'))
 
 
 def read_payloads(stem):
